@@ -80,7 +80,7 @@ pub fn generate(prop: &str, rng: &mut Rng, tier: Tier) -> Scenario {
         mix.storage = 0;
     }
     let mut gas = match (prop, g.below(11)) {
-        ("C29", 0..=6) => GasSched::Default,
+        ("C29", 0..=5) => GasSched::Default,
         (_, 0..=4) => GasSched::Default,
         (_, 5 | 6) => GasSched::Unit,
         (_, 7..=9) => GasSched::Randomized { seed: g.next_u64() },
